@@ -2,17 +2,20 @@
 open Conv
 open BinNums
 
+(* fast path for values that fit an OCaml int; schoolbook conversion (Conv) only near the i64 limits *)
 let z_of_decimal (s : string) : coq_Z =
+  if Stdlib.String.length s <= 18 then z_of_int (int_of_string s) else
   let neg = Stdlib.String.length s > 0 && s.[0] = '-' in
   let body = if neg then Stdlib.String.sub s 1 (Stdlib.String.length s - 1) else s in
   match n_of_decimal body with
   | N0 -> Z0
   | Npos p -> if neg then Zneg p else Zpos p
 
+let rec pos_bits = function Coq_xH -> 1 | Coq_xO p | Coq_xI p -> 1 + pos_bits p
 let decimal_of_z = function
   | Z0 -> "0"
-  | Zpos p -> decimal_of_n (Npos p)
-  | Zneg p -> "-" ^ decimal_of_n (Npos p)
+  | Zpos p -> if pos_bits p <= 60 then string_of_int (int_of_pos p) else decimal_of_n (Npos p)
+  | Zneg p -> if pos_bits p <= 60 then "-" ^ string_of_int (int_of_pos p) else "-" ^ decimal_of_n (Npos p)
 
 let outcome_str f = function
   | Prelude.Ok a -> f a
